@@ -212,3 +212,19 @@ func cfgStrings(cfg map[string]any, key string) []string {
 	}
 	return nil
 }
+
+// cfgRoutes reads the "routes" entry of a connector configuration: destination signal -> route.
+func cfgRoutes(cfg map[string]any) map[string][]string {
+	out := map[string][]string{}
+	switch m := cfg["routes"].(type) {
+	case map[string][]string:
+		for k, v := range m {
+			out[k] = v
+		}
+	case map[string]any:
+		for k := range m {
+			out[k] = cfgStrings(m, k)
+		}
+	}
+	return out
+}
